@@ -449,6 +449,63 @@ fn retry_with(st: &mut St, max_len: usize, ctx: context::Context) {
     }
 }
 
+/// Long runs: the policy asks for exactly `wanted` attempts (a polling policy: "retry while the
+/// answer says not done"), the backend fails every attempt but the last. Lengths around every power
+/// of two up to `max` and around 1000: a bound or a counter that wraps shows at its edge.
+fn retry_long(st: &mut St, max: u32) {
+    let mut lens: Vec<u32> = vec![];
+    let mut p = 8u32;
+    while p <= max {
+        lens.extend([p - 1, p, p + 1]);
+        p *= 2;
+    }
+    lens.extend([99, 100, 101, 999, 1000, 1001, 1500]);
+    lens.retain(|l| *l <= max + 1);
+    lens.sort();
+    lens.dedup();
+    let ctx = context::current();
+    for wanted in lens {
+        let seen_attempts: Rc<RefCell<Vec<u32>>> = Rc::new(RefCell::new(vec![]));
+        let calls = Rc::new(std::cell::Cell::new(0u32));
+        struct Counting(Rc<std::cell::Cell<u32>>, u32);
+        impl Stub for &Counting {
+            type Req = Arc<u64>;
+            type Resp = u64;
+            async fn call(&self, _: context::Context, _r: Arc<u64>) -> Result<u64, RpcError> {
+                self.0.set(self.0.get() + 1);
+                if self.0.get() >= self.1 {
+                    Ok(self.0.get() as u64)
+                } else {
+                    Err(RpcError::Server(ServerError::new(std::io::ErrorKind::WouldBlock, "not yet".to_string())))
+                }
+            }
+        }
+        let backend = Counting(calls.clone(), wanted);
+        let sa = seen_attempts.clone();
+        let stub = Retry::new(&backend, move |_r: &Result<u64, RpcError>, attempt: u32| {
+            sa.borrow_mut().push(attempt);
+            attempt < wanted
+        });
+        let f = stub.call(ctx, 42u64);
+        futures::pin_mut!(f);
+        let out = drive(f, 10);
+        st.evals += 1;
+        st.distinct.insert(h(&("retry-long", wanted)));
+        let want_attempts: Vec<u32> = (1..=wanted).collect();
+        if *seen_attempts.borrow() != want_attempts {
+            let seen = seen_attempts.borrow();
+            st.failures.push(("C20-retry-attempt-numbers".into(), format!("a policy that asks for {wanted} attempts was consulted {} times (last attempt number {:?})", seen.len(), seen.last())));
+        }
+        if calls.get() != wanted {
+            st.failures.push(("C20-retry-attempt-count".into(), format!("a policy that asks for {wanted} attempts: the backend was called {} times", calls.get())));
+        }
+        match out {
+            Some(Ok(v)) if v == wanted as u64 => {}
+            other => st.failures.push(("C20-retry-result".into(), format!("a policy that asks for {wanted} attempts: returned {}, the last result was Ok({wanted})", other.as_ref().map(show).unwrap_or_else(|| "stuck".into())))),
+        }
+    }
+}
+
 pub fn run_c20(tier: Tier) -> i32 {
     let start = Instant::now();
     let mut st = St { samples: vec![], evals: 0, distinct: HashSet::new(), failures: vec![] };
@@ -456,6 +513,9 @@ pub fn run_c20(tier: Tier) -> i32 {
         st.failures.push(("C20-rr-panic".into(), crate::mock::take_panic()));
     }
     consistent_hash(&mut st);
+    if std::panic::catch_unwind(std::panic::AssertUnwindSafe(|| retry_long(&mut st, if tier == Tier::Quick { 4096 } else { 1 << 17 }))).is_err() {
+        st.failures.push(("C20-retry-panic".into(), crate::mock::take_panic()));
+    }
     let rl = if tier == Tier::Quick { 4 } else { 5 };
     if std::panic::catch_unwind(std::panic::AssertUnwindSafe(|| retry(&mut st, rl))).is_err() {
         st.failures.push(("C20-retry-panic".into(), crate::mock::take_panic()));
